@@ -17,7 +17,7 @@ func TestAsm(t *testing.T){
 		debugTerm = func(p *asmProg, b int, ins *asmInstr, t, f *AbsState){
 			if fmt.Sprint(b) != w { return }
 			fmt.Println("TERM",b,ins.text,"fk",t.meta["fk"],"fc",t.meta["fc"],"taken feasible",t.st.feasible(),"fall feasible",f.st.feasible())
-			fmt.Println("   fa",f.vals["$fa"].Str(p.tab),"fb",f.vals["$fb"].Str(p.tab),"fr",f.vals["$fr"].Str(p.tab))
+			fmt.Println("   SI",f.vals["SI"].Str(p.tab),"from",f.from,"fa",f.vals["$fa"].Str(p.tab),"fb",f.vals["$fb"].Str(p.tab),"fr",f.vals["$fr"].Str(p.tab))
 			fmt.Println("   fall cons:", f.st.Str(p.tab))
 		}
 	}
@@ -34,7 +34,8 @@ func TestAsm(t *testing.T){
 		}
 	}
 	t0 := time.Now()
-	res,f,err := analyseAsmDecoder("/repo/internal/lz4block/decode_amd64.s", 4, asmCase{false,false}, coll, func(l int) string { return fmt.Sprint("L",l) })
+	asmPath := "/repo/internal/lz4block/decode_amd64.s"; if e := os.Getenv("ASMPATH"); e != "" { asmPath = e }
+	res,f,err := analyseAsmDecoder(asmPath, 4, asmCase{false,false}, coll, func(l int) string { return fmt.Sprint("L",l) })
 	if err!=nil{t.Fatal(err)}
 	fmt.Println("rounds",res.rounds,"lp",lpCount,"blocks",len(f.blocks),"time",time.Since(t0),"maxdisj",res.maxDisj, res.trouble, "hullLP", res.hullLP, "fast", lpFastCount, "slow", lpSlowCount)
 	for b,hd := range res.heads { if b>=100000 {continue}; n:=0; for i := range hd.dirs { if hd.has[i]&&!hd.dropped[i]{n++} }; fmt.Println("head",b,f.blocks[b].label,"phis",len(hd.phiSym),"dirs",len(hd.dirs),"kept",n,"rounds",hd.rounds) }
